@@ -62,12 +62,30 @@ func checkC20(c *Ctx) {
 	c.Clause("Get returns only connections with since(lastUsed) ≤ idleTimeout; stale ones are closed, not returned")
 	c.Clause("Put appends only while len(idle) < maxIdle; a rejected connection is closed")
 	c.Clause("Close closes the connection it is given on every path")
+	c.Clause("the reverse proxy receives the client's own request (its context), so nothing but the peers ends an upgraded connection")
 	c.Clause("Shutdown closes every idle connection of every pool under both locks and replaces the pool map")
 	c.NotDecided("byte-exact relaying (inside net/http/httputil); pool histories against a reference model")
 
 	ws := c.wrappers()
 	c.Floor("wrapper-forwards-hijack", len(ws), 4, "ResponseWriter wrappers")
 	c.rwForwarding(ws, true, false, nil)
+	// the upgraded connection lives as long as the request context handed to the reverse proxy: it must
+	// be the client's own request (httputil closes the backend side as soon as that context is done)
+	serve := p.Fn("internal/loadbalancer", "LoadBalancer", "ServeHTTP")
+	c.traceRule("tunnel-keeps-client-context", "loadbalancer.(*LoadBalancer).ServeHTTP", serve, c.transparencySpec(),
+		"the reverse proxy is given the client's request object: no derived context (deadline, cancellation) can end a tunnel neither peer closed",
+		func(t *Trace) string {
+			for _, it := range t.Items {
+				if !strings.HasPrefix(it.Label, "proxy(") {
+					continue
+				}
+				args := strings.SplitN(strings.TrimSuffix(strings.TrimPrefix(it.Label, "proxy("), ")"), "|", 2)
+				if len(args) == 2 && args[1] != "param:r" {
+					return "the request handed to the reverse proxy is not the client's own (" + firstN(args[1], 160) + "): a context with a deadline or an earlier cancellation makes httputil tear down an upgraded connection although neither side closed it"
+				}
+			}
+			return ""
+		})
 	lockDiscipline(c, func(k string) bool {
 		return strings.HasPrefix(k, poolT) || strings.HasPrefix(k, "loadbalancer.WebSocketPool.")
 	})
@@ -412,6 +430,7 @@ func checkC19(c *Ctx) {
 			}
 			return ""
 		})
+	c.signalsStayHandled(sg)
 	c.probeContext()
 	c.waitGroupJoinable()
 	c.poolShutdown()
@@ -854,6 +873,8 @@ func checkC03(c *Ctx) {
 			}
 			return ""
 		})
+	c.abortPropagates()
+	c.goroutinesCannotCrash()
 	c.timeoutsConfigured()
 	ws := c.wrappers()
 	c.Floor("wrapper-fresh-per-request", len(ws), 4, "ResponseWriter wrappers")
@@ -1253,4 +1274,118 @@ func (c *Ctx) shutdownParentLive(v ssa.Value, depth int) string {
 		}
 	}
 	return "a context that is not context.Background() (" + p.Desc(v, nil) + ")"
+}
+
+// signalsStayHandled: "repeated shutdown calls are harmless" at process level means a second
+// SIGTERM/SIGINT during the drain is still absorbed.  signal.Stop / signal.Reset give the signal its
+// default disposition back (the process dies, in-flight responses are cut off), so on no path of main
+// may they run before the shutdown sequence has been entered and left.
+func (c *Ctx) signalsStayHandled(sg *ssa.Function) {
+	p := c.P
+	rule, construct := "signals-stay-handled", "cmd/helios.main"
+	mainFn := p.Fn("cmd/helios", "", "main")
+	if mainFn == nil {
+		c.Missing(rule, construct)
+		return
+	}
+	sp := &Spec{
+		Event: func(in ssa.Instruction, fr *Frame) string {
+			ci, ok := in.(ssa.CallInstruction)
+			if !ok {
+				return ""
+			}
+			switch n := CalleeName(ci); n {
+			case "os/signal.Stop", "os/signal.Reset", "os/signal.Ignore":
+				if _, isDefer := in.(*ssa.Defer); isDefer {
+					return "" // reported when it runs ("run:…")
+				}
+				return "unsubscribe:" + strings.TrimPrefix(n, "os/signal.")
+			case "(*net/http.Server).Shutdown":
+				return "drain"
+			}
+			if f := StaticFn(ci); f != nil && f == sg {
+				return "drain"
+			}
+			return ""
+		},
+		Expand: func(callee *ssa.Function, site ssa.CallInstruction) bool {
+			pk := fnPkg(callee)
+			return pk != nil && strings.HasSuffix(pk.Pkg.Path(), "/cmd/helios") && callee != sg
+		},
+	}
+	c.traceRule(rule, construct, mainFn, sp,
+		"no path of main gives SIGINT/SIGTERM their default disposition back before the drain has finished",
+		func(t *Trace) string {
+			for i, it := range t.Items {
+				l := strings.TrimPrefix(it.Label, "run:")
+				if !strings.HasPrefix(l, "unsubscribe:") {
+					continue
+				}
+				for _, later := range t.Items[i+1:] {
+					if later.Label == "drain" {
+						return "signal." + strings.TrimPrefix(l, "unsubscribe:") + " runs before the graceful shutdown: a second SIGTERM/SIGINT during the drain kills the process, cutting off the requests still in flight and skipping the balancer's Stop"
+					}
+				}
+			}
+			return ""
+		})
+}
+
+// goroutinesCannotCrash: a panic in a request handler is recovered by net/http, a panic in a goroutine
+// Helios starts itself (probe loop, probes, sweeps, listeners) ends the process.  On no path of such a
+// goroutine — helpers inlined — is a pointer dereferenced that the path has established to be nil; in
+// particular the pointer result of a library call is nil on the path on which its error was found
+// non-nil (`resp, err := client.Do(req); if err != nil { … resp.StatusCode … }`).
+func (c *Ctx) goroutinesCannotCrash() {
+	p := c.P
+	rule := "goroutine-cannot-crash"
+	n := 0
+	seen := map[*ssa.Function]bool{}
+	for _, fn := range p.Funcs {
+		if !p.InScope(fn) {
+			continue
+		}
+		for _, ci := range callsIn(fn) {
+			g, ok := ci.(*ssa.Go)
+			if !ok {
+				continue
+			}
+			var target *ssa.Function
+			switch v := g.Call.Value.(type) {
+			case *ssa.MakeClosure:
+				target, _ = v.Fn.(*ssa.Function)
+			case *ssa.Function:
+				target = v
+			}
+			if target == nil {
+				target = StaticFn(g)
+			}
+			if target == nil || target.Blocks == nil || !p.IsHelios(target) || seen[target] {
+				continue
+			}
+			seen[target] = true
+			n++
+			sp := &Spec{
+				Expand: expandAllHelios("/internal/metrics.", "/internal/logging."),
+			}
+			sp.P = p
+			sp.MaxTraces = 20000
+			ts := sp.Walk(target)
+			construct := p.FuncKey(target)
+			if sp.Overflow() {
+				c.Undecided(rule, construct, p.InstrPos(g), "path enumeration exceeded its bound")
+				continue
+			}
+			bad := ""
+			for _, t := range ts {
+				for _, it := range t.Items {
+					if strings.HasPrefix(it.Label, "nil-deref:") {
+						bad = p.InstrPos(it.Instr) + ": a " + strings.TrimPrefix(it.Label, "nil-deref:") + " that is nil on this path is dereferenced (the pointer result of a call whose error was just found non-nil): the goroutine started at " + p.InstrPos(g) + " is not covered by net/http's per-connection recovery, so the fault that makes the call fail — a refused connection, a timeout — ends the whole process"
+					}
+				}
+			}
+			c.Check(bad == "", rule, construct, p.InstrPos(g), fmt.Sprintf("no nil dereference on any of %d paths", len(ts)), bad)
+		}
+	}
+	c.Floor(rule, n, 3, "goroutines started by Helios")
 }
